@@ -3,6 +3,7 @@ package props
 import (
 	"encoding/json"
 	"fmt"
+	"math"
 	"os"
 	"path/filepath"
 	"sort"
@@ -474,7 +475,7 @@ func TestC17_Subcommands(t *testing.T) {
 				args = append(args, "-v")
 			}
 			if rapid.Bool().Draw(t, "lim") {
-				args = append(args, "--limit", strconv.Itoa(rapid.SampledFrom([]int{-5, 0, 1, 1000}).Draw(t, "l")))
+				args = append(args, "--limit", strconv.Itoa(rapid.SampledFrom([]int{-5, 0, 1, 1000, 1<<44 + 1, math.MaxInt64, math.MinInt64}).Draw(t, "l")))
 			}
 			args = append(args, "--", arg("q"))
 		case "save":
@@ -496,7 +497,7 @@ func TestC17_Subcommands(t *testing.T) {
 				}
 			}
 			if rapid.IntRange(0, 2).Draw(t, "hlimit") > 0 {
-				args = append(args, "--limit", strconv.Itoa(rapid.SampledFrom([]int{-1, -3, 0, 1, 2, 1000000, -1000000}).Draw(t, "hl")))
+				args = append(args, "--limit", strconv.Itoa(rapid.SampledFrom([]int{-1, -3, 0, 1, 2, 1000000, -1000000, 1<<31 - 1, 1 << 31, 1<<44 + 1, 1 << 62, math.MaxInt64, math.MinInt64}).Draw(t, "hl")))
 			}
 			if rapid.IntRange(0, 2).Draw(t, "hpattern") > 0 {
 				pat := rapid.SampledFrom([]string{"i", "list", "dis", "", "x", "find", "zz"}).Draw(t, "pattern-word")
